@@ -20,6 +20,9 @@ type libModel func(fr *Frame, st *State, args []*Val, cc *ssa.CallCommon, pos to
 var libModels = map[string]libModel{}
 var libWrites = map[string][]string{}
 
+// outPtrFns: modelled functions that write exactly the pointee of the pointer boxed in argument i (index into cc.Args).
+var outPtrFns = map[string]int{}
+
 var bigPtrT types.Type
 
 // constant package-level *big.Int values (assumed immutable) and constant slices, by their negative reference id
@@ -340,6 +343,42 @@ func init() {
 		"(*sync.WaitGroup).Add", "(*sync.WaitGroup).Done", "(*sync.WaitGroup).Wait", "runtime/debug.Stack", "strings.ToLower", "strings.ToUpper",
 		"encoding/hex.EncodeToString", "strconv.Itoa", "strconv.FormatUint", "strconv.FormatInt"} {
 		reg(n, nil, nop)
+	}
+	// ABI decoding into a caller-supplied pointer (reflection-driven, not verified): the pointee receives an unspecified value
+	// of its type, the result is an unspecified error; nothing else changes. The decoded value is a function of (method name,
+	// input bytes) only - stated where needed by the contracts through abidec(); here it is simply unconstrained.
+	for _, n := range []string{"UnpackMethod", "UnpackVariable"} {
+		nm := "(" + modPath + "/vm/abi.ABIContract)." + n
+		outPtrFns[nm] = 1
+		reg(nm, nil, func(fr *Frame, st *State, a []*Val, cc *ssa.CallCommon, pos token.Pos) (*Val, *State) {
+			mi, ok := cc.Args[1].(*ssa.MakeInterface)
+			var pt *types.Pointer
+			if ok {
+				pt, ok = under(mi.X.Type()).(*types.Pointer)
+			}
+			if !ok {
+				st.havocAll()
+				fr.C.reassertConstGlobals(st)
+				return fr.freshResult(cc.Signature(), "abi.unpack"), st
+			}
+			p := fr.val(st, mi.X)
+			var facts []*Term
+			fv := freshVal(pt.Elem(), "abi.unpacked", &facts)
+			for _, f := range facts {
+				fr.C.addFact(f)
+			}
+			// a nil target makes the decoder return an error (reflect: not a pointer / nil pointer); with a non-nil one it writes
+			if p.Cell != nil {
+				unsup("abi unpack into a local cell")
+			}
+			fr.store(st, p, pt.Elem(), fv)
+			return fr.freshResult(cc.Signature(), "abi.unpack"), st
+		})
+	}
+	for _, n := range []string{"UnpackEmptyMethod", "PackMethod", "PackVariable"} {
+		reg("("+modPath+"/vm/abi.ABIContract)."+n, nil, func(fr *Frame, st *State, a []*Val, cc *ssa.CallCommon, pos token.Pos) (*Val, *State) {
+			return fr.freshResult(cc.Signature(), "abi.pack"), st
+		})
 	}
 	// time.Time: an instant is identified by an uninterpreted nanosecond count of its (wall, ext) fields
 	reg("(time.Time).UnixNano", nil, func(fr *Frame, st *State, a []*Val, cc *ssa.CallCommon, pos token.Pos) (*Val, *State) {
